@@ -168,6 +168,11 @@ impl RowIdSequence {
 
     /// Delete row ids by position.
     pub fn mask(&mut self, positions: impl IntoIterator<Item = u32>) -> Result<()> {
+        // The walk below consumes the positions in increasing order, but callers may pass
+        // them in any order (e.g. when iterating a hash set based deletion vector).
+        let mut positions = positions.into_iter().collect::<Vec<_>>();
+        positions.sort_unstable();
+        positions.dedup();
         let mut local_positions = Vec::new();
         let mut positions_iter = positions.into_iter();
         let mut curr_position = positions_iter.next();
